@@ -1,9 +1,9 @@
-\* C14 thorough: batches of <= 3 operations over 3 suffixes, every single and every pair of structural mutations, opaque fault classes
+\* C14 thorough: batches of <= 3 operations over 2 suffixes, every single and every pair of structural mutations, opaque fault classes
 INIT Init
 NEXT Next
 CONSTANTS
   MaxBatch = 3
-  Sfxs = {1, 2, 3}
+  Sfxs = {1, 2}
   MaxMut = 2
   OpaqueOn = TRUE
 INVARIANT RoundTrip
